@@ -11,21 +11,36 @@ Open Scope N_scope.
 Lemma Facts_ok_request_state : request_state_written = false.
 Proof. reflexivity. Qed.
 
-(* any history of SCRIPT_NAME changes, path_info_pop calls and generations: every generation step
-   answers with route_url / route_path of the environ as it is at that step, whatever was kept before *)
-Theorem request_history_stateless e rs target steps : forall st,
-  run_req false e rs target st steps = spec_req e rs target (rs_script st) (rs_pinfo st) steps.
+(* the lru_cache of _join_elements is transparent (C17's regenerated fact: its key is the stringified tuple) *)
+Lemma Facts_ok_join_key : join_elements_key_stringified = true.
+Proof. reflexivity. Qed.
+
+Lemma route_url_any_cache c e rs n els o kw : route_url c e rs n els o kw = route_url [] e rs n els o kw.
 Proof.
-  induction steps as [|s r IH]; intros st; [reflexivity|].
+  unfold route_url. destruct (assoc n rs) as [p|]; [|reflexivity].
+  rewrite !(join_elements_cache_transparent_repaired _ _ Facts_ok_join_key). reflexivity.
+Qed.
+
+Lemma route_path_any_cache c e rs n els o kw : route_path c e rs n els o kw = route_path [] e rs n els o kw.
+Proof. unfold route_path. destruct (path_app_url route_path_script_quoted e); cbn [rbind]; [apply route_url_any_cache|reflexivity]. Qed.
+
+(* any history of SCRIPT_NAME changes, path_info_pop calls and generations, whatever earlier generations in
+   the process left in the element cache: every generation step answers with route_url / route_path of
+   the environ as it is at that step *)
+Theorem request_history_stateless e rs target steps : forall st c,
+  run_req false e rs target st c steps = spec_req e rs target (rs_script st) (rs_pinfo st) steps.
+Proof.
+  induction steps as [|s r IH]; intros st c; [reflexivity|].
   destruct s as [s| |els o kw]; cbn [run_req spec_req].
   - rewrite IH. reflexivity.
   - destruct (path_info_pop (rs_script st) (rs_pinfo st)) as [s' p']. rewrite IH. reflexivity.
-  - unfold gen_step. cbn [andb]. rewrite IH. reflexivity.
+  - unfold gen_step. cbn [andb]. rewrite IH. cbn [rs_script rs_pinfo].
+    rewrite route_url_any_cache, route_path_any_cache. reflexivity.
 Qed.
 
-(* for the code of the current source (depends on the regenerated fact) *)
-Theorem request_generation_stateless e rs target script pinfo memo steps :
-  run_req request_state_written e rs target (mkRS script pinfo memo) steps = spec_req e rs target script pinfo steps.
+(* for the code of the current source (depends on the regenerated facts) *)
+Theorem request_generation_stateless e rs target script pinfo memo c steps :
+  run_req request_state_written e rs target (mkRS script pinfo memo) c steps = spec_req e rs target script pinfo steps.
 Proof. rewrite Facts_ok_request_state. apply request_history_stateless. Qed.
 
 (* route_path of every generation step is route_url minus scheme://authority of the CURRENT environ *)
@@ -57,14 +72,14 @@ Definition req_ov : overrides := mkOv None None None None None None.
 Definition req_steps : list rstep := [RGen [] req_ov []; RSet [47; 98]; RGen [] req_ov []].
 
 Theorem request_memo_refuted :
-  run_req true req_env [([114], req_pat)] [114] (mkRS [47; 97] [] None) req_steps
+  run_req true req_env [([114], req_pat)] [114] (mkRS [47; 97] [] None) [] req_steps
   <> spec_req req_env [([114], req_pat)] [114] [47; 97] [] req_steps.
 Proof. vm_compute. discriminate. Qed.
 
 Example request_history_example :
   map (fun x => snd (snd x)) (spec_req req_env [([114], req_pat)] [114] [47; 97] [] req_steps)
     = [Ok [47; 97; 47; 120]; Ok [47; 98; 47; 120]]                                   (* /a/x, /b/x *)
-  /\ map (fun x => snd (snd x)) (run_req true req_env [([114], req_pat)] [114] (mkRS [47; 97] [] None) req_steps)
+  /\ map (fun x => snd (snd x)) (run_req true req_env [([114], req_pat)] [114] (mkRS [47; 97] [] None) [] req_steps)
     = [Ok [47; 97; 47; 120]; Ok [47; 97; 47; 120]]                                   (* /a/x, /a/x (stale) *)
   /\ path_info_pop [47; 97] [47; 47; 98; 47; 99] = ([47; 97; 47; 47; 98], [47; 99]).  (* '/a' + '//b', '/c' *)
 Proof. vm_compute. repeat split; reflexivity. Qed.
